@@ -23,7 +23,10 @@ The guards are about what the USER supplied (kinds mix:*).  An operator is judge
 constructors and the scalars written in k * op, op * k, op / k, -op, a - b are no wider than the data and the parts
 are inside the guards (`guard_user`, `guard_parts`) - whatever the resulting object stores: a construction path
 that widens a parameter (casts the scalar to the promoted dtype of a mixed-PRECISION output pytree, say) does not
-thereby leave the scope of the property.  Operators whose OUTPUT pytree has leaves of different precisions
+thereby leave the scope of the property.  QU rotations cast cos / sin (2 * angles) to the dtype of inexact data
+(furax 4243e33; Structs.rot_ty): angles of a WIDER dtype than float / complex Stokes data are inside the guard and judged
+(float64 pointing of a float32 map under x64); only the angle SHAPE and integer data remain guard matters for them.
+Operators whose OUTPUT pytree has leaves of different precisions
 (float16 / bfloat16 + float32, float32 + float64, float16 + float32 + float64, int32 + float32; dict, list, nested,
 Stokes) x every construction path that introduces a scalar or a parameter x every way of writing the scalar
 (Python int / float / bool, NumPy scalars and 0-d arrays, strongly and weakly typed JAX scalars of each dtype), compared
@@ -434,7 +437,11 @@ def real_guard(op, user=None) -> bool:
         if s.stokes == 'I':
             return True
         q, u = s.q, s.u
+        # mv casts cos / sin (2 * angles) to the dtype of inexact data (the Q leaf): the dtype of the angles then does
+        # not matter; integer / boolean data keep the factors' own (floating-point) type and are widened by them
         trig = jnp.cos(2 * par(op.angles))
+        if _inexact(q.dtype):
+            trig = np.dtype(q.dtype)  # only the TYPE matters to `absorbs`: a strongly typed array of the data's dtype
         return (q.shape == u.shape and q.dtype == u.dtype and absorbs(trig, q)
                 and bshape(q.shape, op.angles.shape) == tuple(q.shape))
     if isinstance(op, j['hwp'].HWPOperator):
